@@ -368,7 +368,7 @@ Proof.
   pose proof (common_den_pos M) as P.
   assert (Dv : (common_den M | D)%Z) by (apply common_den_least; intros row q Hr Hq; apply (HE row q Hr Hq)).
   pose proof (Z.divide_pos_le _ _ HD Dv) as LeD.
-  apply (munkres_terminates n n (scale_matrix M) (common_den M) Hn Hn (rect_scale n M L F)).
+  apply (munkres_terminates_bounded n n (scale_matrix M) (common_den M) Hn Hn (rect_scale n M L F)).
   - intros i j Hi Hj. rewrite gz_scale.
     assert (Hq : 0 <= qget M i j <= 1).
     { unfold qget. assert (Hrow : In (nth i M []) M) by (apply nth_In; lia).
